@@ -80,6 +80,9 @@ class Zero:
 
     adjoint = __neg__ = __rmul__ = __mul__
 
+    # Let numpy arrays defer to the methods above instead of broadcasting over the sentinel.
+    __array_ufunc__ = None
+
     # There is only one instance: copying and pickling give it back.
     def __copy__(self) -> Self:
         return self
